@@ -27,7 +27,7 @@ def write_meta(argv):
         "needs_to_manifest": needs,
         "confirmed": {
             "how": "tools_seed_confirm.sh: patch applied to a fresh scratch worktree of /repo HEAD; repository suite run "
-                   "with the change (main network namespace); demonstration run without and with the change",
+                   "with the change (private network namespace with a veth pair, where the unmodified tree gives 295 passed); demonstration run without and with the change",
             "suite_with_change": suite[-1] if suite else None,
             "suite_failures": re.findall(r"^(?:FAILED|ERROR) (.*)$", log, re.M),
             "demo_exit_without_change": int(summ.group(1)) if summ else None,
